@@ -60,9 +60,16 @@ inline Problem<DIM> gen_problem(uint64_t seed, int N, int order, int domain, boo
     p.T = gen_durations(r, N, order, domain);
     if (r.chance(0.04))
     {
-        // a duration at or next to 1 s (the switch point of the bundled time map)
+        // a duration at or next to 1 s (the switch point of the bundled time map) - as long as the vector stays
+        // inside the duration-ratio limit of its domain
         static const double near1[] = {1.0, 0.99999, 1.00001, 0.999999999, 1.000000001, 0.99995};
-        p.T[(size_t)r.below((uint64_t)N)] = near1[(size_t)r.below(6)];
+        size_t at = (size_t)r.below((uint64_t)N);
+        double v = near1[(size_t)r.below(6)], old = p.T[at];
+        p.T[at] = v;
+        double mn = p.T[0], mx = p.T[0];
+        for (double t : p.T) { mn = std::min(mn, t); mx = std::max(mx, t); }
+        double limit = domain == 1 ? 1e4 : (order == 3 ? 1000.0 : (order == 5 ? 20.0 : 4.0));
+        if (mx / mn > limit) p.T[at] = old;
     }
     {
         double u = r.unit();
